@@ -110,7 +110,14 @@ def build_program(rng, nvals):
     # labels far away so that label-valued and %position-valued expressions hit carry boundaries
     gap1 = rng.choice([0x7f0, 0x7fc, 0x800, 0x804, 0xff8, 0x1000, 0x17fc, 0x1800, rng.randrange(4, 0x3000, 4)])
     body = []
+    ctx = rng.random() < 0.5
+    if ctx:
+        body.append(('FARFN = 0x20000000', None))
     for k in range(nvals):
+        if ctx and rng.random() < 0.3:
+            # what else a program does between its pairs: far and near calls, tail calls, indirect jumps, loads and stores, data
+            body.append((rng.choice(['call FARFN', 'tail FARFN', 'call LA', 'tail LB', 'jalr x1, x5, 8', 'lw x11, 12(x5)', 'sw x11, -4(x2)', 'jal x1, LA',
+                                     'beq x5, x6, 8', 'dw 0x12345678', 'li x5, 0x12345']), None))
         v = interesting_value(rng)
         form = rng.choice(['lit', 'const', 'label', 'position', 'constexpr', 'label', 'position'])
         name = 'V%d' % k
@@ -172,7 +179,7 @@ def build_program(rng, nvals):
     if rng.random() < 0.6:
         # put LA so that its *pessimistic* offset (every li / pair counted 8 bytes) is just above a 2 KiB / 4 KiB boundary while
         # its final offset (after short li's shrink and, with -c, instructions compress) falls just below it
-        pess = sum(8 if (l.startswith('li ') or l.startswith('lui') or l.startswith('auipc')) else (4 if not ('=' in l) else 0) for l in lines)
+        pess = sum(8 if (l.startswith('li ') or l.startswith('lui') or l.startswith('auipc') or l.startswith('call') or l.startswith('tail')) else (4 if not ('=' in l) else 0) for l in lines)
         target = rng.choice([0x800, 0x1000, 0x1800, 0x2000]) + rng.choice([0, 0, 2, 4, 8, 12])
         while target - pess < 4:
             target += 0x800
